@@ -423,11 +423,20 @@ def oracle(ctx):
                           "zone resolution (an abbreviation of the process zone)")
         # ---- (e) unknown abbreviation: naive + warning (TZ-independent)
         L.set_tz("UTC")
-        for nm in ["BRST", "JST", "ABCDE", "XYZ", "PDT"]:
-            ans, _, raw = L.run_impl(L.Call("10:30 " + nm), raw=True)
-            ctx.case(("unknown", nm))
-            if ans != "ok 2003 9 25 10 30 0 0 | warn %s | -" % L.cps(nm):
-                ctx.violation("unknown abbreviation must give a naive datetime and UnknownTimezoneWarning", {"text": "10:30 " + nm}, {"impl": ans})
+        # … on EVERY call: the same name three times in a row, and again after the others (a "warn once per name" memo would show)
+        unk = ["BRST", "JST", "ABCDE", "XYZ", "PDT"]
+        for rnd in range(2):
+            for nm in unk:
+                for rep in range(3):
+                    c = L.Call("10:30 " + nm)
+                    ans, _, raw = L.run_impl(c, raw=True)
+                    ctx.case(("unknown", nm, rnd, rep))
+                    ctx.evaluations += 1
+                    if ans != "ok 2003 9 25 10 30 0 0 | warn %s | -" % L.cps(nm):
+                        case = c.describe()
+                        case["call_number_for_this_name"] = rnd * 3 + rep + 1
+                        ctx.violation("unknown abbreviation must give a naive datetime and UnknownTimezoneWarning on every call", case,
+                                      {"impl": ans, "expected": "warn " + nm})
         # default=date(...): outside the documented type; observed, not judged
         for txt in ["10:00", "Sep 5", "2003-09-25", "Monday"]:
             try:
@@ -482,6 +491,7 @@ def replay(ctx, payload):
     prev = L.set_tz(c.get("TZ") or "UTC")
     try:
         a0, _, _ = L.run_impl(base)
+        a0b, _, _ = L.run_impl(base)                # again: state left by the first call (a warn-once memo) shows here
         a1, _, _ = L.run_impl(variant())
         a2, _, _ = L.run_impl(variant(fuzzy=True))
         a3, _, _ = L.run_impl(variant(fwt=True))
@@ -491,4 +501,6 @@ def replay(ctx, payload):
         L.set_tz(prev)
     print("parse(%s) [tzinfos=%s parserinfo=%s TZ=%s]: as recorded=%s model=%s | strict=%s fuzzy=%s fuzzy_with_tokens=%s ignoretz=%s"
           % (ascii(c["text"]), c.get("tzinfos"), c.get("parserinfo"), c.get("TZ"), a0, m, a1, a2, a3, a4))
-    return ((not a1.startswith("ok ")) or a1 == a2) and a0 == m
+    if a0b != a0:
+        print("the same call again: %s" % a0b)
+    return ((not a1.startswith("ok ")) or a1 == a2) and a0 == m and a0b == m
